@@ -9,7 +9,7 @@
    NewSink for every old sink), of any length.  [grun] additionally checks the assumption reloadable.go makes
    on its callers at every NewSink: the client number is below MaxClientNumber and no other open (or
    opening) sink has it.  [lrun] is a run of the model of the TCP listener, the only caller. *)
-From SV Require Import Model.Common Model.Reload Spec.ReloadSpec Proofs.ReloadLists Proofs.ReloadInv Proofs.ReloadProofs Proofs.ReloadListener Model.ReloadReplay Proofs.ReloadReplayProofs.
+From SV Require Import Model.Common Model.Reload Spec.ReloadSpec Proofs.ReloadLists Proofs.ReloadInv Proofs.ReloadProofs Proofs.ReloadListener Model.ReloadReplay Proofs.ReloadReplayProofs Spec.ReloadRecoverSpec Proofs.ReloadRecoverProofs.
 From Coq Require Import Permutation.
 Local Open Scope nat_scope.
 
@@ -190,3 +190,67 @@ Theorem C17_replay_is_run :
   run lk (init nthr maxn) (rev (d_evs (replay lk nthr maxn ops))) = Some (d_st (replay lk nthr maxn ops)).
 Proof. exact replay_is_run_lemma. Qed.
 Print Assumptions C17_replay_is_run.
+
+(* ---------- wave 4: recovery of the pipelines of queued chunks (Model/ReloadRecover.v) ----------
+   Generations = the pipeline sets made by obykeyset.NewOrchestrator at start and by every successful reload.
+   A run is ANY list of steps accepted by [rstep true] from [rinit]: NewOrchestrator entered (only after the previous
+   set was shut down: reload() order), one pipeline of initialPipelineIDs re-created, NewOrchestrator returns (after
+   its loop), traffic asks a live generation for a pipeline, Shutdown - any number of generations, key sets, reloads. *)
+
+(* no pipeline of a generation is started after that generation's Shutdown returned *)
+Theorem C17_recovery_no_start_after_shutdown :
+  forall (evs : list ReloadRecover.revent) (st : ReloadRecover.rstate),
+  ReloadRecover.rrun true ReloadRecover.rinit evs = Some st -> starts_ok (ReloadRecover.r_log st).
+Proof. exact no_start_after_shutdown_lemma. Qed.
+Print Assumptions C17_recovery_no_start_after_shutdown.
+
+(* at every moment every queue dir is owned by at most one running pipeline (old and new generation never share) *)
+Theorem C17_recovery_one_owner_per_queue_dir :
+  forall (evs : list ReloadRecover.revent) (st : ReloadRecover.rstate),
+  ReloadRecover.rrun true ReloadRecover.rinit evs = Some st -> one_owner (ReloadRecover.r_live st).
+Proof. exact one_owner_lemma. Qed.
+Print Assumptions C17_recovery_one_owner_per_queue_dir.
+
+(* when every generation has been shut down (agent stop) no pipeline is running *)
+Theorem C17_recovery_none_live_after_shutdown :
+  forall (evs : list ReloadRecover.revent) (st : ReloadRecover.rstate),
+  ReloadRecover.rrun true ReloadRecover.rinit evs = Some st -> ReloadRecover.all_shut st = true -> ReloadRecover.r_live st = [].
+Proof. exact none_live_after_shutdown_lemma. Qed.
+Print Assumptions C17_recovery_none_live_after_shutdown.
+
+(* queued chunks are taken over: from the return of NewOrchestrator until Shutdown every queued key set has its
+   running pipeline in that generation *)
+Theorem C17_recovery_takeover_complete :
+  forall (evs : list ReloadRecover.revent) (st : ReloadRecover.rstate) (g id : nat),
+  ReloadRecover.rrun true ReloadRecover.rinit evs = Some st -> g < ReloadRecover.r_n st ->
+  ReloadRecover.r_ret st g = true -> ReloadRecover.r_shut st g = false ->
+  In id (ReloadRecover.r_ids st g) -> In (g, id) (ReloadRecover.r_live st).
+Proof. exact takeover_complete_lemma. Qed.
+Print Assumptions C17_recovery_takeover_complete.
+
+(* the four statements depend on the loop running before NewOrchestrator returns: with the loop in a goroutine
+   ([rstep false]) reload;shutdown starts a pipeline after its set was shut down and leaves it running after the last
+   Shutdown, reload;reload puts two running pipelines on one queue dir, and a returned generation lacks pipelines *)
+Theorem C17_recovery_async_variant_refuted :
+  (exists st, ReloadRecover.rrun false ReloadRecover.rinit async_witness_1 = Some st /\ ~ starts_ok (ReloadRecover.r_log st) /\
+              ReloadRecover.all_shut st = true /\ ReloadRecover.r_live st <> []) /\
+  (exists st, ReloadRecover.rrun false ReloadRecover.rinit async_witness_2 = Some st /\ ~ one_owner (ReloadRecover.r_live st)) /\
+  (exists st, ReloadRecover.rrun false ReloadRecover.rinit [ReloadRecover.RNew [1; 2]; ReloadRecover.RReturn 0] = Some st /\
+              ReloadRecover.r_ret st 0 = true /\ ReloadRecover.r_shut st 0 = false /\ ~ In (0, 1) (ReloadRecover.r_live st)).
+Proof. exact async_variant_refuted_lemma. Qed.
+Print Assumptions C17_recovery_async_variant_refuted.
+
+(* ... and those schedules are not runs of the code *)
+Theorem C17_recovery_async_witness_excluded :
+  ReloadRecover.rrun true ReloadRecover.rinit async_witness_1 = None /\ ReloadRecover.rrun true ReloadRecover.rinit async_witness_2 = None.
+Proof. exact async_witness_not_a_run_lemma. Qed.
+Print Assumptions C17_recovery_async_witness_excluded.
+
+(* non-vacuity: start with two queued key sets, reload, a record of a third key set, reload, shutdown is a run; three
+   generations, eight pipelines started, everything shut down *)
+Theorem C17_recovery_example :
+  exists st, ReloadRecover.rrun true ReloadRecover.rinit recover_example = Some st /\ ReloadRecover.all_shut st = true /\
+             ReloadRecover.r_n st = 3 /\
+             length (filter (fun e => match e with ReloadRecover.PStart _ _ => true | _ => false end) (ReloadRecover.r_log st)) = 8.
+Proof. exact recover_example_lemma. Qed.
+Print Assumptions C17_recovery_example.
